@@ -7,9 +7,18 @@ Expressions: integer constants, field references, the `$logical_value` builtin, 
 reference-free leaves, and functions of one, two or three arguments (every Emboss operator
 and the two- and three-argument forms of the builtin functions; longer `$max(...)` lists are not
 modelled — the harness reports them as unmodelled instead of guessing).
-Imports nothing outside core.
+
+Second half: how the generated C++ evaluates the inverse (`function_body`) — the bounds
+`expression_bounds` assigns to its nodes, the fixed-width types
+`header_generator._render_builtin_operation` picks from them, `MaybeDo`'s casts — and the
+range check of the virtual field's own value range that `CouldWriteValue` performs first
+(`fix: make writes through an arithmetic virtual field reject values outside the field's
+range before computing the inverse transform`).
+Imports only `Emboss.Model.CppInt` (fixed-width C++ integer types; core only).
 -/
+import Emboss.Model.CppInt
 namespace Emboss.WInf
+open Emboss.CppInt
 
 inductive Op
   | add | sub | mul
@@ -133,6 +142,162 @@ def writeMethod (fields : List Field) : Nat → Nat → WriteMethod
         | some (.ref x, body) => viaTarget fields (writeMethod fields fuel) x (.transform x body)
         | _ => .readOnly
 
+/-! ### The inverse as the generated C++ evaluates it -/
+
+/-- Inclusive integer range `[lo, hi]` (`type.integer.minimum_value/maximum_value`). -/
+structure Rng where
+  lo : Int
+  hi : Int
+  deriving DecidableEq, Repr
+
+/-- No field reference and no `$logical_value` below this node. -/
+def isClosed : Expr → Bool
+  | .const _ => true
+  | .leaf _ => true
+  | .un _ a => isClosed a
+  | .bin _ a b => isClosed a && isClosed b
+  | .tern _ a b c => isClosed a && isClosed b && isClosed c
+  | _ => false
+
+/-- Value of a node the front end types as a constant (`modulus == "infinity"`): a closed
+node the model can evaluate.  (Closed nodes it cannot evaluate — `$max(1, 2)` — are replaced
+by their annotated `modular_value` before they reach the model; constant folding is C05/C16.) -/
+def constVal (e : Expr) : Option Int :=
+  if isClosed e then eval (fun _ => 0) 0 e else none
+
+/-- `expression_bounds` on the nodes of an inverse: constants, `$logical_value` (typed with
+the virtual field's own range `lv`), ADDITION (`lo+lo, hi+hi`), SUBTRACTION (`lo-hi, hi-lo`).
+`none`: outside the fragment `_invert_expression` produces. -/
+def rangeOf (lv : Rng) : Expr → Option Rng
+  | .const c => some ⟨c, c⟩
+  | .logical => some lv
+  | .bin op a b =>
+    match constVal (.bin op a b) with
+    | some c => some ⟨c, c⟩
+    | none =>
+      match op, rangeOf lv a, rangeOf lv b with
+      | .add, some ra, some rb => some ⟨ra.lo + rb.lo, ra.hi + rb.hi⟩
+      | .sub, some ra, some rb => some ⟨ra.lo - rb.hi, ra.hi - rb.lo⟩
+      | _, _, _ => none
+  | _ => none
+
+/-- Outcome of evaluating generated C++: a value, undefined behaviour (signed overflow in
+`IntermediateT`), no C++ type for a node (`_cpp_integer_type_for_range` returned `None`: the
+header does not compile), or a node outside the modelled fragment. -/
+inductive CRes
+  | ok (v : Int)
+  | ub
+  | notype
+  | unmodelled
+  deriving DecidableEq, Repr
+
+/-- A constant-typed node: `Maybe<T>(static_cast<T>(literal))`, `T` = the type for `[c, c]`. -/
+def literal (c : Int) : CRes :=
+  match typeForRange c c with
+  | some _ => .ok c
+  | none => .notype
+
+def imin (a b : Int) : Int := if a ≤ b then a else b
+def imax (a b : Int) : Int := if a ≤ b then b else a
+
+/-- `IntermediateT` of a binary node: the type for the hull of the result's and the
+operands' ranges. -/
+def intermediateT (r ra rb : Rng) : Option IntTy :=
+  typeForRange (imin r.lo (imin ra.lo rb.lo)) (imax r.hi (imax ra.hi rb.hi))
+
+/-- `MaybeDo<IntermediateT, ResultT, Sum|DifferenceOperation, LeftT, RightT>` on known
+operands: `static_cast<ResultT>(Do(static_cast<IntermediateT>(l), static_cast<IntermediateT>(r)))`.
+Conversions wrap; arithmetic in a signed `IntermediateT` that leaves the type is undefined;
+in an unsigned one it wraps. -/
+def cppOp (isAdd : Bool) (r ra rb : Rng) (va vb : Int) : CRes :=
+  match intermediateT r ra rb, typeForRange r.lo r.hi with
+  | some it, some rt =>
+    let x := wrap it va
+    let y := wrap it vb
+    let z := if isAdd then x + y else x - y
+    if it.signed && !it.holds z then .ub else .ok (wrap rt (wrap it z))
+  | _, _ => .notype
+
+/-- `_render_expression(function_body)` evaluated on the candidate value `v`
+(`emboss_reserved_local_value`, a value of the logical type).  Operands are evaluated
+eagerly, left to right. -/
+def cppEval (lv : Rng) (v : Int) : Expr → CRes
+  | .const c => literal c
+  | .logical => .ok v
+  | .bin op a b =>
+    match constVal (.bin op a b) with
+    | some c => literal c
+    | none =>
+      match op with
+      | .add | .sub =>
+        match cppEval lv v a, cppEval lv v b with
+        | .ok va, .ok vb =>
+          match rangeOf lv (.bin op a b), rangeOf lv a, rangeOf lv b with
+          | some r, some ra, some rb => cppOp (op == .add) r ra rb va vb
+          | _, _, _ => .unmodelled
+        | .ok _, bad => bad
+        | bad, _ => bad
+      | _ => .unmodelled
+  | _ => .unmodelled
+
+/-- Every run-time node of the inverse has an `IntermediateT` and a `ResultT`, and every
+literal a type (what `_cpp_integer_type_for_range` needs for the header to compile). -/
+def typesExist (lv : Rng) : Expr → Bool
+  | .const c => (typeForRange c c).isSome
+  | .logical => true
+  | .bin op a b =>
+    match constVal (.bin op a b) with
+    | some c => (typeForRange c c).isSome
+    | none =>
+      typesExist lv a && typesExist lv b &&
+      match rangeOf lv (.bin op a b), rangeOf lv a, rangeOf lv b with
+      | some r, some ra, some rb => (intermediateT r ra rb).isSome && (typeForRange r.lo r.hi).isSome
+      | _, _, _ => false
+  | _ => false
+
+/-- `(IntermediateT, ResultT, LeftT, RightT)` of every run-time node, preorder — the template
+arguments of the `Sum`/`Difference` calls in the generated header (`none`: no such type). -/
+def cppTypes (lv : Rng) : Expr → List (Option IntTy × Option IntTy × Option IntTy × Option IntTy)
+  | .bin op a b =>
+    match constVal (.bin op a b) with
+    | some _ => []
+    | none =>
+      match rangeOf lv (.bin op a b), rangeOf lv a, rangeOf lv b with
+      | some r, some ra, some rb =>
+        (intermediateT r ra rb, typeForRange r.lo r.hi, typeForRange ra.lo ra.hi,
+          typeForRange rb.lo rb.hi) :: (cppTypes lv a ++ cppTypes lv b)
+      | _, _, _ => cppTypes lv a ++ cppTypes lv b
+  | _ => []
+
+/-- `logical_type`: the C++ parameter type of the virtual field's write methods. -/
+def logicalType (lv : Rng) : Option IntTy := typeForRange lv.lo lv.hi
+
+/-- The usual arithmetic conversions for two integer types of rank ≥ `int` (all the types
+here are 32 or 64 bits wide): same signedness → the wider; otherwise the unsigned one if it
+is at least as wide, else the signed one (which then holds every value of the unsigned). -/
+def commonType (a b : IntTy) : IntTy :=
+  if a.signed == b.signed then (if a.bits ≥ b.bits then a else b)
+  else
+    let u := if a.signed then b else a
+    let s := if a.signed then a else b
+    if u.bits ≥ s.bits then u else s
+
+/-- C++ `a < b` for `a : ta`, `b : tb`. -/
+def cppLt (ta : IntTy) (a : Int) (tb : IntTy) (b : Int) : Bool :=
+  decide (wrap (commonType ta tb) a < wrap (commonType ta tb) b)
+
+/-- The generated range check of `CouldWriteValue`:
+`if (value < <lo> || value > <hi>) return false;` — the bounds rendered by `_render_integer`
+(each a literal of the type for `[b, b]`), the lower comparison omitted when `lo == 0` and the
+logical type is unsigned.  `some true`: the value passes.  `none`: a bound has no literal. -/
+def rangeCheck (lv : Rng) (t : IntTy) (v : Int) : Option Bool :=
+  match typeForRange lv.lo lv.lo, typeForRange lv.hi lv.hi with
+  | some tlo, some thi =>
+    let below := if lv.lo ≠ 0 ∨ t.signed then cppLt t v tlo lv.lo else false
+    let above := cppLt thi lv.hi t v
+    some (!(below || above))
+  | _, _ => none
+
 /-! ### Generated virtual write methods -/
 
 /-- Abstract destination field: what the write methods of the template need from it.
@@ -147,20 +312,32 @@ def Dest.tryToWrite (d : Dest) (u : Int) : Bool × Dest :=
   if d.could u && d.complete then (true, { d with value := u }) else (false, d)
 
 /-- `CouldWriteValue(v)` of a virtual field with a transform write method:
-`ValueIsOk(v) && transform.Known() && destination.CouldWriteValue(transform)`. -/
-def virtualCould (body : Expr) (valueIsOk : Int → Bool) (d : Dest) (v : Int) : Bool :=
-  valueIsOk v &&
-    match eval (fun _ => 0) v body with
-    | none => false
-    | some u => d.could u
+`ValueIsOk(v) && <v inside the field's own range> && transform.Known() &&
+destination.CouldWriteValue(transform)`; `lv` = the range of `read_transform`'s type, `t` the
+logical type.  `none`: evaluating the generated code is not defined (undefined behaviour, a
+missing type, an unmodelled node). -/
+def virtualCould (lv : Rng) (t : IntTy) (body : Expr) (valueIsOk : Int → Bool) (d : Dest)
+    (v : Int) : Option Bool :=
+  if !valueIsOk v then some false
+  else
+    match rangeCheck lv t v with
+    | none => none
+    | some false => some false
+    | some true =>
+      match cppEval lv v body with
+      | .ok u => some (d.could u)
+      | _ => none
 
 /-- `TryToWrite(v)`: `if (!CouldWriteValue(v)) return false;
-return destination.TryToWrite(transform)`. -/
-def virtualTryToWrite (body : Expr) (valueIsOk : Int → Bool) (d : Dest) (v : Int) : Bool × Dest :=
-  if virtualCould body valueIsOk d v then
-    match eval (fun _ => 0) v body with
-    | none => (false, d)
-    | some u => d.tryToWrite u
-  else (false, d)
+return destination.TryToWrite(transform)` (the transform is computed after the check). -/
+def virtualTryToWrite (lv : Rng) (t : IntTy) (body : Expr) (valueIsOk : Int → Bool) (d : Dest)
+    (v : Int) : Option (Bool × Dest) :=
+  match virtualCould lv t body valueIsOk d v with
+  | none => none
+  | some false => some (false, d)
+  | some true =>
+    match cppEval lv v body with
+    | .ok u => some (d.tryToWrite u)
+    | _ => none
 
 end Emboss.WInf
